@@ -13,6 +13,9 @@
 //	now    time.Now() -> verifrt.Now() (strictly increasing readings under virtual time)
 //	net    net.DialTimeout / net.Listen -> verifrt.NetDialTimeout / NetListen (in-memory network seam)
 //	atomics x.Add(v) -> verifrt.AtomicAdd(&x, v) (address taken, scheduling point, add)
+//	mapwrite  m[k] = v and delete(m, k) on a map held in a struct field (typed, like maprange) are bracketed by
+//	          verifrt.MapWriteBegin / MapWriteEnd with a scheduling point inside: under the scheduler two goroutines inside
+//	          a write of the same map at once is what the Go runtime kills the process for ("concurrent map writes")
 //	maprange  for k, v := range m (m of map type, decided with go/types over the package) iterates in sorted key order:
 //	        for _, e := range verifrt.SortedEntries(m) { k, v := e.K, e.V; ... } - Go's random map order is the one
 //	        source of nondeterminism the scheduler cannot own otherwise
@@ -163,6 +166,27 @@ func (r *rewriter) rewriteMapRange(rs *ast.RangeStmt) {
 	r.sites++
 }
 
+// isFieldMap: e is a selector (x.f) of map type - shared state, not a local variable.
+func (r *rewriter) isFieldMap(e ast.Expr) bool {
+	if r.info == nil {
+		return false
+	}
+	if _, ok := e.(*ast.SelectorExpr); !ok {
+		return false
+	}
+	tv, ok := r.info.Types[e]
+	if !ok || tv.Type == nil {
+		return false
+	}
+	_, isMap := tv.Type.Underlying().(*types.Map)
+	return isMap
+}
+
+func (r *rewriter) mapWriteStmt(n ast.Node, fn string, m ast.Expr) ast.Stmt {
+	r.used = true
+	return &ast.ExprStmt{X: &ast.CallExpr{Fun: rt(fn), Args: []ast.Expr{r.site(n), m}}}
+}
+
 func (r *rewriter) site(n ast.Node) *ast.BasicLit {
 	p := r.fset.Position(n.Pos())
 	r.sites++
@@ -292,6 +316,14 @@ func (r *rewriter) rewriteStmts(list []ast.Stmt) []ast.Stmt {
 				}
 			}
 		case *ast.ExprStmt:
+			if r.rules["mapwrite"] {
+				if c, ok := st.X.(*ast.CallExpr); ok && len(c.Args) == 2 {
+					if id, ok := c.Fun.(*ast.Ident); ok && id.Name == "delete" && r.isFieldMap(c.Args[0]) {
+						out = append(out, r.mapWriteStmt(st, "MapWriteBegin", c.Args[0]), s, r.mapWriteStmt(st, "MapWriteEnd", c.Args[0]))
+						continue
+					}
+				}
+			}
 			if r.rules["points"] {
 				if c, ok := st.X.(*ast.CallExpr); ok {
 					if id, ok := c.Fun.(*ast.Ident); ok && id.Name == "close" {
@@ -304,6 +336,12 @@ func (r *rewriter) rewriteStmts(list []ast.Stmt) []ast.Stmt {
 				}
 			}
 		case *ast.AssignStmt:
+			if r.rules["mapwrite"] && len(st.Lhs) == 1 {
+				if ix, ok := st.Lhs[0].(*ast.IndexExpr); ok && r.isFieldMap(ix.X) {
+					out = append(out, r.mapWriteStmt(st, "MapWriteBegin", ix.X), s, r.mapWriteStmt(st, "MapWriteEnd", ix.X))
+					continue
+				}
+			}
 			if r.rules["points"] && len(st.Rhs) == 1 && isRecv(st.Rhs[0]) {
 				out = append(out, r.pointStmt(st, "recv"))
 				after = true
@@ -393,7 +431,7 @@ func main() {
 		fset := token.NewFileSet()
 		var f *ast.File
 		var info *types.Info
-		if rs["maprange"] {
+		if rs["maprange"] || rs["mapwrite"] {
 			dir := filepath.Dir(rel)
 			tp, ok := typed[dir]
 			if !ok {
